@@ -56,9 +56,9 @@ def build(ctx):
 def _case_line(row, fmts, prec, mag, nf, fprec, twin):
     typ, rows, cols, ext, fset, fid, z0c = row[:7]
     names = fmts[fid]
-    return "%s %d %d %d %s %s %s %s %s %d %s %d" % (
+    return "%s %d %d %d %s %s %s %s %s %d %s %d %s" % (
         typ, rows, cols, nf, ext, fset, ",".join(names) if names else "-",
-        z0c, prec, mag, fprec, twin)
+        z0c, prec, mag, fprec, twin, "".join(str(b) for b in row[9]))
 
 
 def make_cases(table, tier, seed, path, quick_n=4200):
@@ -90,6 +90,15 @@ def make_cases(table, tier, seed, path, quick_n=4200):
         two = [i for i in promo if rows[i][2] == 2]
         plan += [(i, "promo") for i in rng.sample(two, min(len(two), 40))]
         plan += [(i, "promo") for i in rng.sample(promo, min(len(promo), 30))]
+        # impedance equality patterns other than all-equal / all-distinct
+        # (block C of the table): accepted ones with >= 3 ports first
+        def odd(r):
+            q = r[9]
+            return len(set(q)) not in (1, len(q))
+        pat = [i for i, r in enumerate(rows) if odd(r) and r[7] == "accept"]
+        pts = [i for i in pat if rows[i][8] in ("ts1", "ts2")]
+        plan += [(i, "pat") for i in rng.sample(pts, min(len(pts), 160))]
+        plan += [(i, "pat") for i in rng.sample(pat, min(len(pat), 120))]
     else:
         plan = [(i, None) for i in range(len(rows))]
         plan += [(i, "second") for i, r in enumerate(rows) if r[7] == "accept"]
@@ -149,12 +158,12 @@ def _case_fields(lines):
     if not m:
         return None
     p = m.group(1).split(":")
-    if len(p) != 15:
+    if len(p) != 16:
         return None
     return {"id": m.group(1), "type": p[3], "rows": int(p[4]), "cols": int(p[5]),
             "nf": int(p[6]), "ext": p[7], "set": p[8], "fmt": p[9],
             "z0c": p[10], "prec": p[11], "mag": p[12], "fprec": p[13],
-            "twin": p[14]}
+            "twin": p[14], "z0p": p[15]}
 
 
 def _prec_class(p):
@@ -620,7 +629,7 @@ def choose_pairs(table, tier, seed, quick_n=1300):
 
 
 def _gen_pair(args):
-    idx, ci, vi, kind, cls, base, var, seed, outdir = args
+    idx, ci, vi, kind, cls, base, var, seed, outdir, preludes = args
     import tsgen
     cseed = (seed * 1000003 + ci) & 0x7fffffff
     if kind == "npd":
@@ -643,13 +652,30 @@ def _gen_pair(args):
             fp.write(data)
         side[which] = {"s": sp, "gen": meta, "path": path}
         fields += [path, path, fset, meth]
+    # the chain: one object loads a file of another kind first, then both
+    # spellings (order alternates)
+    h = (seed * 7 + ci * 13 + vi) % 6
+    if kind == "npd":
+        pre = "ts1" if h % 2 == 0 else "ts2"
+    elif h % 3 == 2:
+        pre = "ts2" if base["fr"] == "v1" else "ts1"
+    else:
+        pre = "npd"
+    side["prelude"] = pre
+    fields += ["ab" if h < 3 else "ba", preludes[pre]]
     return idx, " ".join(fields), side
 
 
 def gen_pairs(table, pairs, seed, outdir):
     os.makedirs(outdir, exist_ok=True)
+    # prelude files: some 2-port S content as NPD / Touchstone 1 / Touchstone 2
+    _stick_files(outdir, seed)
+    preludes = {"npd": os.path.join(outdir, "k_npd.npd"),
+                "ts1": os.path.join(outdir, "k_ts1.s2p"),
+                "ts2": os.path.join(outdir, "k_ts2.ts")}
     jobs = [(i, ci, vi, table[ci]["kind"], table[ci]["content"],
-             table[ci]["base"], table[ci]["variants"][vi], seed, outdir)
+             table[ci]["base"], table[ci]["variants"][vi], seed, outdir,
+             preludes)
             for i, (ci, vi) in enumerate(pairs)]
     sidecar = {}
     lines = [None] * len(jobs)
@@ -702,15 +728,18 @@ def issues_c08(ctx, res, label, sidecar):
             c = ev.get("c", {})
             if evname == "NLoad":
                 if field == "ok":
-                    sig = "Spell:NLoad:ok:%s:%s" % (ev.get("err"), ev.get("msg"))
+                    sig = "Spell:NLoad:ok:%s:%s%s" % (
+                        ev.get("err"), ev.get("msg"),
+                        ":reused-object" if ev.get("grp") == "chain" else "")
                 else:
                     sig = "Spell:NLoad:%s:%s:fmt=%s:%s:%s" % (
                         field, c.get("type"), s.get("fmt"), c.get("z0k"),
                         s.get("deco"))
             elif field == "ok":
                 # the library's own message names the call site
-                sig = "Spell:SLoad:ok:%s:%s:%s" % (ev.get("err"), ev.get("msg"),
-                                                   s.get("fr"))
+                sig = "Spell:SLoad:ok:%s:%s:%s%s" % (
+                    ev.get("err"), ev.get("msg"), s.get("fr"),
+                    ":reused-object" if ev.get("grp") == "chain" else "")
             elif field == "freqOK":
                 sig = "Spell:SLoad:freqOK:%s:%s" % (s.get("fr"), s.get("unit"))
             elif field in ("z0OK", "ftAfter", "type", "nf", "fz0"):
@@ -760,7 +789,7 @@ def issues_c08(ctx, res, label, sidecar):
 def _nontrivial_c08(lines):
     return sum(1 for ln in lines if (ln.startswith('{"e":"SLoad"') or
                                      ln.startswith('{"e":"NLoad"')) and
-               '"ok":1' in ln) == 2
+               '"ok":1' in ln) == 4
 
 
 def run_c08(ctx, exe, table, tier, seed, only=None):
